@@ -622,7 +622,8 @@ func (t *State) RollBackUnconfirmedTx() (map[string]bool, []*pb.Transaction, err
 	// 回滚未确认交易
 	undoDone := make(map[string]bool)
 	undoList := make([]*pb.Transaction, 0)
-	for txid, unconfirmTx := range unconfirmTxMap {
+	for _, txid := range vhook.OrderedKeys("RollBackUnconfirmedTx#1", unconfirmTxMap) {
+		unconfirmTx := unconfirmTxMap[txid]
 		undoErr := t.undoUnconfirmedTx(unconfirmTx, unconfirmTxMap, unconfirmTxGraph,
 			batch, undoDone, &undoList)
 		if undoErr != nil {
@@ -1323,7 +1324,8 @@ func (t *State) processUnconfirmTxs(block *pb.InternalBlock, batch kvdb.Batch, n
 	t.log.Info("unconfirm table size", "unconfirmTxCount", t.tx.UnconfirmTxAmount)
 	undoDone := map[string]bool{}
 	unconfirmToConfirm := map[string]bool{}
-	for txid, unconfirmTx := range unconfirmTxMap {
+	for _, txid := range vhook.OrderedKeys("processUnconfirmTxs#1", unconfirmTxMap) {
+		unconfirmTx := unconfirmTxMap[txid]
 		if _, exist := txidsInBlock[string(txid)]; exist {
 			// 说明这个交易已经被确认
 			batch.Delete(append([]byte(pb.UnconfirmedTablePrefix), []byte(txid)...))
